@@ -136,9 +136,9 @@ class Interp:
     def call_repo(self, finfo, args, kwargs, self_obj=None, force_inline=False):
         """Call a repository function: by contract if one is registered for modular use, else inline."""
         self.called.add(finfo.key)
-        con = self.contracts.get(finfo.key)
-        only = getattr(con, 'only_in', None) if con is not None else None      # call-site views valid only inside certain callers
-        if con is not None and con.modular and not force_inline and finfo.key != self.current_fuc and (not only or any(self.current_fuc.endswith(o) for o in only)):
+        ms = self.contracts.get(finfo.key)
+        con = ms.pick(self.current_fuc) if hasattr(ms, 'pick') else ms      # scoped call-site views first, else the function's call-site contract
+        if con is not None and con.modular and not force_inline and finfo.key != self.current_fuc:
             return con.apply_at_call(self, finfo, args, kwargs, self_obj)
         return self.inline(finfo, args, kwargs, self_obj)
 
